@@ -97,7 +97,23 @@ CHECKS["C16"] = {
     "technique": "property-based testing (rapid) with a reference classifier; exhaustive enumeration of literal/helper call sites",
 }
 
+CHECKS["C15"] = {
+    "title": "authenticated users can only send as addresses they are entitled to",
+    "go": GO,
+    "units": [
+        {"name": "authorize_sender", "pkg": "internal/check/authorize_sender",
+         "overlay": {"verif_c15_test.go": "harness/C15/authorize_sender_test.go"}},
+    ],
+    "quick": {"n": 60000, "shards": 8},
+    "thorough": {"n": 2400000, "shards": 16},
+    "level_text": "randomised search (rapid) over entitlement tables, normalisation settings and structured messages (several From fields, groups, "
+                  "display-name tricks, spelling variants); one-directional oracle 'accepted implies entitled' against a reference model over base identities.",
+    "level_note": "only the direction the statement gives is asserted; the fraction of accepted messages is reported to show the check is not vacuous; "
+                  "table keys and values are generated in canonical spelling",
+    "technique": "property-based testing (rapid) with a by-construction reference entitlement model",
+}
+
 # properties deliberately not claimed: {"property_id":..., "reason":...}
 NOT_APPLICABLE = []
 
-FIX_COMMITS = ["b0fbfbf", "ce16772", "79536cb", "9da7ceb", "ba9a898", "cd17c24", "0f579ef", "cfad1cd", "1450983"]
+FIX_COMMITS = ["b0fbfbf", "ce16772", "79536cb", "9da7ceb", "ba9a898", "cd17c24", "0f579ef", "cfad1cd", "1450983", "0eb6137"]
